@@ -43,6 +43,7 @@ type RepProc struct {
 	PortBase     int
 	Extra        []string
 	Env          []string
+	Wrap         []string // command prefix the replica is started under
 	cmd          *exec.Cmd
 	agent        *exec.Cmd
 	Starts       int
@@ -66,20 +67,21 @@ type Cluster struct {
 	Res   *vk.Result
 	R     *vk.Rand
 
-	AlignedOnly bool         // dev aid: only 4 KiB-aligned writes
-	gate        sync.RWMutex // writers hold it shared per operation; pausing takes it exclusively
-	mmu         sync.Mutex
-	Acked       []uint32
-	Maybe       map[int64][]uint32
-	nextWID     uint32
-	IOErrs      []string
-	Writes      int64
-	AckedN      int64
-	Events      []string
-	emu         sync.Mutex
-	Wedged      int32
-	lmu         sync.Mutex
-	lastModes   map[string]types.Mode
+	AlignedOnly  bool         // dev aid: only 4 KiB-aligned writes
+	gate         sync.RWMutex // writers hold it shared per operation; pausing takes it exclusively
+	mmu          sync.Mutex
+	Acked        []uint32
+	Maybe        map[int64][]uint32
+	nextWID      uint32
+	IOErrs       []string
+	Writes       int64
+	AckedN       int64
+	Events       []string
+	emu          sync.Mutex
+	Wedged       int32
+	DelayStartMs int32 // start requests to the controller's REST API are held this long (atomic)
+	lmu          sync.Mutex
+	lastModes    map[string]types.Mode
 }
 
 func (cl *Cluster) event(f string, a ...interface{}) {
@@ -105,7 +107,15 @@ func NewCluster(name string, rf int, size int64, bin, base string, a, b int, r *
 	if err != nil {
 		return nil, err
 	}
-	cl.srv = &http.Server{Handler: crest.NewRouter(crest.NewServer(cl.C))}
+	router := crest.NewRouter(crest.NewServer(cl.C))
+	cl.srv = &http.Server{Handler: http.HandlerFunc(func(w http.ResponseWriter, r *http.Request) {
+		// a slow network between a replica and the controller, on demand: the elected replica's start request is
+		// still in flight when the scenario lets that replica die
+		if d := atomic.LoadInt32(&cl.DelayStartMs); d > 0 && r.Method == "POST" && r.URL.Query().Get("action") == "start" {
+			time.Sleep(time.Duration(d) * time.Millisecond)
+		}
+		router.ServeHTTP(w, r)
+	})}
 	go cl.srv.Serve(l)
 	for i := 0; i < rf; i++ {
 		cl.Reps = append(cl.Reps, cl.newRep(i, a, b))
@@ -133,7 +143,12 @@ func (cl *Cluster) StartRep(p *RepProc) error {
 	args := []string{"replica", "--frontendIP", cl.CtlIP, "--listen", p.IP + ":9502", "--size", strconv.FormatInt(cl.Size, 10), "--sync-agent=false", "--logtofile=false"}
 	args = append(args, p.Extra...)
 	args = append(args, p.Dir)
-	p.cmd = exec.Command(cl.Bin, args...)
+	if len(p.Wrap) > 0 {
+		// started under a tracer (e.g. strace delaying its connect calls); signals go to the process group
+		p.cmd = exec.Command(p.Wrap[0], append(append(append([]string(nil), p.Wrap[1:]...), cl.Bin), args...)...)
+	} else {
+		p.cmd = exec.Command(cl.Bin, args...)
+	}
 	p.cmd.Stdout, p.cmd.Stderr = lf, lf
 	p.cmd.Env = append(os.Environ(), "REPLICATION_FACTOR="+strconv.Itoa(cl.RF))
 	p.cmd.Env = append(p.cmd.Env, p.Env...)
